@@ -473,7 +473,7 @@ func (se *SpecEnv) evalCall(x *ECall) Value {
 		if v.Sort == "Slice" {
 			t = sliceBase(v.T)
 		}
-		return boolV("(> " + t + " " + se.old.alloc + ")")
+		return boolV(and("(> "+t+" "+se.old.alloc+")", "(<= "+t+" "+se.s.alloc+")"))
 	case "allocated":
 		v := se.eval(x.Args[0])
 		t := v.T
